@@ -81,6 +81,18 @@ CHECKS = {
         BASE_NOTE + 'toml, packaging (version parsing), import machinery and zipfile are third-party/runtime: correspondence only; local version segments not modelled.',
         'DESIGN.md section 5 C18',
     ),
+    'C11': (
+        'Rocq proof over an executable state machine of the construction API (invariants of the direct fragment, vm_compute refutations) + step-wise differential correspondence',
+        'PARTIAL. Model/C11.v mirrors Subscription.__new__, publish/republish, Node/Worker/Future._publish, placeholder registration '
+        'and collapse, Worker.train, including the state a failing call leaves behind; it is compared with the real API after every '
+        'call of random legal/illegal sequences and of all permutations of placeholder wirings. Proved (direct worker-to-worker '
+        'wiring, any state, any call): a refused subscription leaves the graph unchanged; no node ever feeds itself. Refuted with '
+        'witnesses (known findings): single publisher per port through placeholders; failing train/collapse leaving partial state. '
+        'The other invariants (apply-xor-train, one trained member per group, trained workers publish nothing, registry = '
+        'subscriptions held) are enforced by the property oracle on every generated sequence, not yet by theorems.',
+        BASE_NOTE + 'Garbage-collection driven registry edits (Subscription.__del__) and placeholder cycles are outside the model.',
+        'DESIGN.md section 5 C11',
+    ),
 }
 NOT_YET = 'model and theorems not built yet in this round (planned, see DESIGN.md section 5/9)'
 
